@@ -311,6 +311,9 @@ func judgeRace(args, real, _ json.RawMessage) *core.Verdict {
 		return core.Fail(key, fmt.Sprintf("goroutine %d round %d input %d: result differs from the same load run alone: %s", m.G, m.Round, m.Input, m.Got))
 	}
 	if len(o.TransformWrong) > 0 {
+		if strings.HasPrefix(o.TransformWrong[0], "traversal:") {
+			return core.Fail("traversal:free-running:wrong-order-or-count", o.TransformWrong[0])
+		}
 		return core.Fail("fanout:free-running:wrong-result", o.TransformWrong[0])
 	}
 	return nil
